@@ -12,3 +12,4 @@ import CC.Thm.C16
 #print axioms CC.Thm.C16.accounted_classified
 #print axioms CC.Thm.C16.load_offsets_match
 #print axioms CC.Thm.C16.result_ignores_address
+#print axioms CC.Thm.C16.source_footprint_match
